@@ -1,5 +1,6 @@
 import FcpptModel.Spec.C07
 import FcpptProofs.C07.Finish
+import FcpptProofs.C07.Extra
 /-!
 # C07 — property theorems
 
@@ -105,6 +106,26 @@ theorem buffer_hands_read_area (g : Nat → Nat → Nat) (hg : ∀ n c, n ≤ g 
       simp [upd, Buf.null]
   · rw [readArea_eq]; simpa [upd] using toList_of_owns (G2.buf b).1
 
+/-- ownership transfer without copying: converting buffer `b` into register `r` allocates nothing (`next` unchanged) and the
+vector's storage *is* the buffer's block, with the buffer's capacity and the read area as contents (`buffer_hands_read_area`) -/
+theorem to_raw_vector_transfers_storage (g : Nat → Nat → Nat) {st st2 : St} {ret : Option Nat} (r b : Nat)
+    (he : step g st (.ctorBuf r b) = .ok (st2, ret)) :
+    st2.heap.next = st.heap.next ∧ (st2.vec r).base = (st.buf b).base ∧ (st2.vec r).last = (st.buf b).readEnd ∧
+      (st2.vec r).cap = (st.buf b).cap ∧ st2.buf b = Buf.null := by
+  simp only [step, bind_eq_ok, pure_eq_ok, Except.ok.injEq, Prod.mk.injEq] at he
+  obtain ⟨h1, hd, rfl, _⟩ := he
+  refine ⟨?_, by simp [upd, toRawVector, Buf.release], by simp [upd, toRawVector, Buf.release],
+    by simp [upd, toRawVector, Buf.release], by simp [upd, toRawVector, Buf.release]⟩
+  simp only [deallocate] at hd
+  split at hd
+  · simp only [Except.ok.injEq] at hd; rw [← hd]
+  · simp only [Heap.free] at hd
+    split at hd
+    · cases hd
+    · split at hd
+      · simp only [Except.ok.injEq] at hd; rw [← hd]; rfl
+      · cases hd
+
 /-- No leak, no double free: after any valid history, running the destructors of all registers succeeds
 (each block is freed exactly once, with the size it was allocated with) and leaves no live allocation.
 (`hv`/`hb`: registers the history never used still hold null pointers; the driver uses 3 + 2 registers.) -/
@@ -129,6 +150,142 @@ theorem comparison_spec {st : St} {ss : SSt} (G : GInv st ss) (r s : Nat) :
   · have : ss.vec r ≠ ss.vec s := fun he => hl (by rw [← (G.vec r).1, ← (G.vec s).1, he])
     simp [hl, this]
 
+/-! ## returned references -/
+
+/-- `v[i]`, `*(begin() + i)`, `data()[i]`, `front()`, `back()` after every valid history: defined exactly when std::vector's
+accessor is (`accIdx`), and the reference designates the element std::vector's reference designates. Storing through it is
+`VOp.assign`, covered by `step_ok`. -/
+theorem references_spec {st : St} {ss : SSt} (G : GInv st ss) (r : Nat) (a : Acc) (i : Nat) (hi : accIdx (ss.vec r) a = some i) :
+    ∃ x, (ss.vec r)[i]? = some x ∧ readRef st.heap (st.vec r) a = .ok x :=
+  readRef_spec (G.vec r) a i hi
+
+/-- storing through a returned reference changes that element and nothing else (also no other register: `Frame`) -/
+theorem reference_store_spec {h : Heap} {v : RV} {l : List Int} (hwf : HeapWf h) (ho : Owns h v l) (a : Acc) (x : Int) (i : Nat)
+    (hi : accIdx l a = some i) :
+    ∃ h', writeRef h v a x = .ok h' ∧ Owns h' v (l.set i x) ∧ Frame h v.base h' v.base :=
+  writeRef_spec hwf ho a x i hi
+
+/-! ## capacity and reallocation -/
+
+/-- the code's growth policy at least doubles -/
+theorem growth_doubles : Geo growth := fun n c => by
+  show 2 * c ≤ max n (c * 2)
+  have := Nat.le_max_right n (c * 2)
+  omega
+
+/-- Capacity and storage identity of every valid single-vector operation, for every growth policy `g` with `n ≤ g n c`:
+the capacity never decreases except by `shrink_to_fit`, which makes it exactly the size; `reserve(n)` makes it at least `n`;
+the storage (hence every iterator / reference into it) stays the same **iff** the new size fits into the old capacity
+(for `reserve`: iff `n` does), and then the capacity is unchanged too; under a doubling policy (`growth_doubles`) a
+capacity that changes at least doubles.  (`CapFacts`, FcpptProofs/C07/Extra.lean, spells these out per operation.) -/
+theorem capacity_and_reallocation (g : Nat → Nat → Nat) (hg : ∀ n c, n ≤ g n c) {h : Heap} {v : RV} {l : List Int}
+    (hwf : HeapWf h) (ho : Owns h v l) (o : VOp) (l' : List Int) (ret : Option Nat) (hs : svstep l o = some (l', ret)) :
+    ∃ h' v', vstep g h v o = .ok (h', v', ret) ∧ Owns h' v' l' ∧ CapFacts g v v' l' o := by
+  obtain ⟨h', v', he, ho', _⟩ := vstep_spec g hg hwf ho o l' ret hs
+  have hc := vstep_capacity g hg hwf ho o l' ret hs he
+  have hlt := ho.base_lt hwf
+  have hl' := ho'.1
+  have gen : Fits g h v v' → v.cap ≤ v'.cap ∧ (v'.base = v.base ↔ l'.length ≤ v.cap) ∧ (v'.base = v.base → v'.cap = v.cap) ∧
+      (Geo g → v'.cap = v.cap ∨ 2 * v.cap ≤ v'.cap) := fun f => by
+    have := f.facts hlt
+    rw [hl']; exact this
+  refine ⟨h', v', he, ho', ?_⟩
+  cases o with
+  | shrink => simp only [CapSpec] at hc; simp only [CapFacts]; omega
+  | reserve n =>
+    simp only [CapSpec] at hc
+    simp only [CapFacts]
+    obtain ⟨_, hc⟩ := hc
+    rcases hc with ⟨a1, a2, a3⟩ | ⟨a1, ⟨b, ab, abn⟩, a3, a4, a5⟩
+    · exact ⟨by omega, by omega, ⟨fun _ => a1, fun _ => a2⟩, fun _ => a3, fun _ => Or.inl a3⟩
+    · have hne : v'.base ≠ v.base := by
+        intro heq
+        have := hlt b (by rw [← heq]; exact ab)
+        omega
+      exact ⟨a3, a4, ⟨fun heq => absurd heq hne, fun hle => by omega⟩, fun heq => absurd heq hne, fun hg2 => Or.inr (a5 hg2)⟩
+  | pushBack s => exact gen hc
+  | popBack => exact gen hc
+  | insert1 pos s => exact gen hc
+  | insertN pos n s => exact gen hc
+  | insertRange pos xs fwd => exact gen hc
+  | erase1 pos => exact gen hc
+  | eraseR a b => exact gen hc
+  | resize n s => exact gen hc
+  | clear => exact gen hc
+  | assign a x => exact gen hc
+  | insertSelf pos a b => exact gen hc
+
+/-- the same after every valid history, for every register -/
+theorem capacity_in_histories (g : Nat → Nat → Nat) (hg : ∀ n c, n ≤ g n c) (ops : List Op) (ss1 : SSt)
+    (hs : srunAll SSt.init ops = some ss1) (r : Nat) (o : VOp) (l' : List Int) (ret : Option Nat)
+    (ho : svstep (ss1.vec r) o = some (l', ret)) :
+    ∃ st1 h' v', runAll g St.init ops = .ok st1 ∧ vstep g st1.heap (st1.vec r) o = .ok (h', v', ret) ∧ Owns h' v' l' ∧
+      CapFacts g (st1.vec r) v' l' o := by
+  obtain ⟨st1, he, G⟩ := history_from_init g hg ops ss1 hs
+  obtain ⟨h', v', hv, hown, hc⟩ := capacity_and_reallocation g hg G.ledger.wf (G.vec r) o l' ret ho
+  exact ⟨st1, h', v', he, hv, hown, hc⟩
+
+/-- `resize_write_area(n)` of a buffer keeps the storage iff `n` cells fit behind the read area -/
+theorem buffer_reallocation {g : Nat → Nat → Nat} {st : St} {ss : SSt} (G : GInv st ss) (k n : Nat) {h' : Heap} {b' : Buf}
+    (he : Buf.resizeWriteArea g st.heap (st.buf k) n = .ok (h', b')) :
+    (b'.base = (st.buf k).base ↔ n ≤ (st.buf k).cap - (st.buf k).readEnd) ∧ b'.readEnd = (st.buf k).readEnd ∧
+      b'.writeEnd = (st.buf k).readEnd + n :=
+  resizeWriteArea_inplace_iff G.ledger.wf (G.buf k) he
+
+/-- `buffer[i]` is the i-th element of the read area -/
+theorem buffer_index_spec {st : St} {ss : SSt} (G : GInv st ss) (k i : Nat) (hi : i < (ss.buf k).1.length) :
+    Buf.index st.heap (st.buf k) i = .ok (ss.buf k).1[i] :=
+  Buf.index_spec (G.buf k) i hi
+
+/-! ## a range of the vector itself -/
+
+/-- `v.insert(v.begin() + pos, v.begin() + a, v.begin() + b)` (not allowed for std::vector): whenever the range lies in front of
+the insertion point (`b ≤ pos`, in particular for every append `pos = size()`), a copy of the range is inserted, on the
+reallocating path (the old block is read before it is freed) and on the in-place path (the range is not touched by the shift)
+alike. Outside this condition the result depends on the capacity — see the refuted `example` below. -/
+theorem insert_own_range (g : Nat → Nat → Nat) (hg : ∀ n c, n ≤ g n c) {h : Heap} {v : RV} {l : List Int}
+    (hwf : HeapWf h) (ho : Owns h v l) (pos a b : Nat) (hab : a ≤ b) (hbp : b ≤ pos) (hp : pos ≤ l.length) :
+    ∃ h' v', insertSelf g h v pos a b = .ok (h', v') ∧ Owns h' v' (insertAt l pos ((l.drop a).take (b - a))) ∧
+      Frame h v.base h' v'.base := by
+  obtain ⟨h', v', he, ho', hf⟩ := vstep_spec g hg hwf ho (.insertSelf pos a b) _ none
+    (by simp only [svstep]; rw [if_pos ⟨hab, hbp, hp⟩])
+  refine ⟨h', v', ?_, ho', hf⟩
+  simp only [vstep, bind_eq_ok, pure_eq_ok, Except.ok.injEq, Prod.mk.injEq] at he
+  obtain ⟨⟨x, y⟩, hxy, rfl, rfl, _⟩ := he
+  exact hxy
+
+/-- `fcppt::io::read_chars` (read_from_opt + to_raw_vector) against the stream specification `sreadChars`
+(`istream::read(count)` is good iff `count` characters are available): a good read yields a vector that holds exactly the
+first `count` characters and owns the only block the call leaves behind; a short read yields nothing and leaves the heap as
+it was (the temporary buffer is freed exactly once) -/
+theorem read_chars_spec (g : Nat → Nat → Nat) (hg : ∀ n c, n ≤ g n c) {h : Heap} (hwf : HeapWf h) (input : List Int) (count : Nat) :
+    match sreadChars input count with
+    | some xs => ∃ h' v, readChars g h input count = .ok (h', some v) ∧ Owns h' v xs ∧ Frame h none h' v.base
+    | none => ∃ h', readChars g h input count = .ok (h', none) ∧ Frame h none h' none :=
+  readChars_spec g hg hwf input count
+
+/-! ## derived comparison operators, dynamic_array -/
+
+/-- comparison.hpp `!= > >= <=` as defined there from `==` and `<`: negated equality, the flipped order, and
+`<=` / `>=` are "less or equal" / "greater or equal" of the lexicographic order (`lexLt_total`) -/
+theorem comparison_derived_spec {st : St} {ss : SSt} (G : GInv st ss) (r s : Nat) :
+    neV st.heap (st.vec r) (st.vec s) = .ok (!(ss.vec r == ss.vec s)) ∧
+    gtV st.heap (st.vec r) (st.vec s) = .ok (lexLt (ss.vec s) (ss.vec r)) ∧
+    leV st.heap (st.vec r) (st.vec s) = .ok (lexLt (ss.vec r) (ss.vec s) || ss.vec r == ss.vec s) ∧
+    geV st.heap (st.vec r) (st.vec s) = .ok (lexLt (ss.vec s) (ss.vec r) || ss.vec s == ss.vec r) := by
+  obtain ⟨h1, h2⟩ := comparison_spec G r s
+  obtain ⟨_, h4⟩ := comparison_spec G s r
+  refine ⟨by simp [neV, h1], by simp [gtV, h4], ?_, ?_⟩
+  · simp only [leV, gtV, h4, ok_bind, pure_eq_ok]; rw [lexLt_total]
+  · simp only [geV, h2, ok_bind, pure_eq_ok]; rw [lexLt_total]
+
+/-- `dynamic_array<T>(n)`: `size()` and `data_end() - data()` are `n`, what is stored through `data()` inside the array is read
+back, the destructor returns the allocation with the size it was allocated with: afterwards the heap is as before. -/
+theorem dynamic_array_roundtrip {h : Heap} (hwf : HeapWf h) (n : Nat) (xs : List Int) (hx : xs.length ≤ n) :
+    ∃ h', dynRoundTrip h n xs = .ok (h', n, n, xs) ∧ (∀ i, h'.slot i = h.slot i) :=
+  let ⟨h', he, hs, _⟩ := dynRoundTrip_spec hwf n xs hx
+  ⟨h', he, hs⟩
+
 /-! ## non-vacuity: the hypotheses are satisfiable by non-trivial histories -/
 
 /-- a valid history with an aliased in-place insert, an input-range insert, erase, swap, move, a buffer conversion -/
@@ -148,6 +305,59 @@ example :
         let a ← toList st.heap (st.vec 2)
         let b ← toList st.heap (st.vec 1)
         pure (a, b, st.heap.liveCount)) = Except.ok ([2, 1, 2, 2, 2, 3], [5, 6, 9], 2) := by rfl
+
+/-- the operations added later are valid for the specification and run in the model: stores through `v[i]` / `front()` / `back()`,
+self-move-assignment of a vector and of a buffer, `read_from_opt` with a succeeding and a failing source, conversion of a
+released buffer -/
+example :
+    (srunAll SSt.init
+      [.ctor 0 (.il [1, 2, 3]), .v 0 (.assign (.index 1) 7), .v 0 (.assign .front 8), .v 0 (.assign .back 9), .moveAssign 0 0,
+       .breadOpt 0 4 (some [5, 6]), .bmoveAssign 0 0, .breadOpt 1 3 none, .ctorBuf 1 0, .ctorBuf 2 0]).map
+      (fun s => (s.vec 0, s.vec 1, s.vec 2, s.buf 0, s.buf 1)) = some ([8, 7, 9], [5, 6], [], ([], 0), ([], 0)) := by rfl
+
+example :
+    (do let st ← runAll growth St.init
+          [.ctor 0 (.il [1, 2, 3]), .v 0 (.assign (.index 1) 7), .v 0 (.assign .front 8), .v 0 (.assign .back 9), .moveAssign 0 0,
+           .breadOpt 0 4 (some [5, 6]), .bmoveAssign 0 0, .breadOpt 1 3 none, .ctorBuf 1 0, .ctorBuf 2 0]
+        let a ← toList st.heap (st.vec 0)
+        let b ← toList st.heap (st.vec 1)
+        let x ← readRef st.heap (st.vec 0) .back
+        pure (a, b, x, (st.vec 1).cap, st.heap.liveCount)) = Except.ok ([8, 7, 9], [5, 6], 9, 4, 2) := by rfl
+
+/-- `capacity_and_reallocation` at work: after `reserve(10)`, `clear()` and three `push_back`s keep the storage (same block,
+capacity 10); `shrink_to_fit` then makes the capacity 3; the next `push_back` at least doubles it -/
+example :
+    (do let a ← construct growth Heap.empty (.il [1, 2, 3])
+        let b ← reserve growth a.1 a.2 10
+        let c ← clear b.1 b.2
+        let d ← pushBack growth c.1 c.2 (.val 4)
+        let e ← pushBack growth d.1 d.2 (.slot 0)
+        let f ← pushBack growth e.1 e.2 (.val 5)
+        let s ← shrinkToFit f.1 f.2
+        let p ← pushBack growth s.1 s.2 (.val 6)
+        pure (b.2.base == f.2.base, f.2.cap, s.2.cap, p.2.cap)) = Except.ok (true, 10, 3, 6) := by rfl
+
+/-- `dynamic_array_roundtrip`, evaluated -/
+example : (dynRoundTrip Heap.empty 4 [7, 8]).map (fun r => (r.2, r.1.liveCount)) = Except.ok ((4, 4, [7, 8]), 0) := by rfl
+
+/-- a range of the vector itself *behind* the insertion point: `{1,2,3,4}`, `insert(begin(), begin()+2, begin()+4)`.
+With capacity 4 the vector reallocates and a copy of `3,4` is inserted; with capacity 10 the in-place path shifts first and
+then reads `1,2` where `3,4` used to be (observed identically on the real code by the correspondence, `std=na` lines).
+This is why the specification covers own ranges only in front of the insertion point (`insert_own_range`). -/
+example :
+    (do let a ← construct growth Heap.empty (.il [1, 2, 3, 4])
+        let c ← insertSelf growth a.1 a.2 0 2 4
+        toList c.1 c.2) = Except.ok [3, 4, 1, 2, 3, 4] ∧
+    (do let a ← construct growth Heap.empty (.il [1, 2, 3, 4])
+        let b ← reserve growth a.1 a.2 10
+        let c ← insertSelf growth b.1 b.2 0 2 4
+        toList c.1 c.2) = Except.ok [1, 2, 1, 2, 3, 4] ∧
+    (do let a ← construct growth Heap.empty (.il [1, 2, 3, 4])
+        let b ← reserve growth a.1 a.2 10
+        let c ← insertSelf growth b.1 b.2 4 1 3
+        toList c.1 c.2) = Except.ok [1, 2, 3, 4, 2, 3] ∧
+    (svstep [1, 2, 3, 4] (.insertSelf 4 1 3)).map (·.1) = some [1, 2, 3, 4, 2, 3] ∧
+    svstep [1, 2, 3, 4] (.insertSelf 0 2 4) = none := ⟨by rfl, by rfl, by rfl, by decide, by decide⟩
 
 /-! ## the two repaired defects: the old behaviour violates the specification -/
 
